@@ -643,8 +643,14 @@ impl DrawExecutor {
                 if dest.x + x >= res.width {
                     break;
                 }
-                let offset = (yp * width + xp) as usize;
-                let color = self.screen_memory[offset];
+                // the grabbed area is stored row by row with its own width; positions outside of it have no pixel
+                let mem = self.screen_memory_size;
+                if xp < 0 || yp < 0 || xp >= mem.width || yp >= mem.height {
+                    continue;
+                }
+                let Some(&color) = self.screen_memory.get((yp * mem.width + xp) as usize) else {
+                    continue;
+                };
                 self.set_pixel(dest.x + x, dest.y + y, color);
             }
         }
